@@ -351,3 +351,12 @@ def untraced(fn, *a):
         with NoTracing():
             return fn(*a)
     return fn(*a)
+
+
+def float_from_octets(octets, width):
+    """the float denoted by 4 / 8 big-endian IEEE-754 octets (binary32 widened to a Python float)"""
+    fc = 'f' if width == 4 else 'd'
+    if SYM:
+        with NoTracing():
+            return _models._unpack_float(list(octets), fc)
+    return struct.unpack('>' + fc, bytes(octets))[0]
